@@ -81,7 +81,8 @@ class LaunchWorld:
                 return self
 
             def release(self, force=False):
-                self.lk.release()
+                if self.lk.owner == w.sched._me():      # like filelock: releasing a lock that is not held is a no-op
+                    self.lk.release()
 
             def __enter__(self):
                 return self.acquire()
